@@ -8,11 +8,12 @@ sys.setrecursionlimit(20000)
 
 
 class State:
-    __slots__ = ('cur', 'saved', 'copies', 'flags', 'ro', 'next', 'trace')
+    __slots__ = ('cur', 'saved', 'copies', 'flags', 'ro', 'next', 'trace', 'calls')
 
     def __init__(self, ro=False):
         self.cur, self.saved, self.flags, self.copies = {}, {}, {}, {}
         self.ro, self.next, self.trace = ro, 2000000, []
+        self.calls = None     # after a searched run: the decisions taken at `call f` sites, in order
 
     def copy(self):
         s = State(self.ro)
@@ -37,12 +38,15 @@ class Decider:
     def __init__(self, choose, on_mark=None):
         self.choose = choose
         self.bits = []
+        self.calls = []
         self.on_mark = on_mark
         self.no_idle = on_mark is not None   # searching for a trace: an iteration that does nothing is never needed
 
     def next(self, kind, node, st):
         b = bool(self.choose(kind, node, st, len(self.bits)))
         self.bits.append(b)
+        if kind == 'mayRaise' and len(node) > 1 and node[1] == 'call':
+            self.calls.append(b)
         return b
 
 
@@ -130,11 +134,23 @@ def run(sc, st, dec):  # noqa: C901
     raise ValueError(k)
 
 
+def call_positions(sc, bits, ro=False):
+    """replay `bits`; -> indices of the decisions taken at `call f` sites (the `mayRaise` tagged 'call'), in order"""
+    pos = []
+
+    def choose(kind, node, st, i):
+        if kind == 'mayRaise' and len(node) > 1 and node[1] == 'call':
+            pos.append(i)
+        return bits[i] if i < len(bits) else False
+    run(sc, State(ro), Decider(choose))
+    return pos
+
+
 class Abort(Exception):
     pass
 
 
-def find_bits(sc, want_trace, want_exit, ro=False, max_nodes=20000):
+def find_bits(sc, want_trace, want_exit, ro=False, max_nodes=20000, calls=None):
     """decision sequence under which the script produces exactly the marks `want_trace` and ends `want_exit`
     ('ok' = returns normally, 'exc' = DOM exception, 'roexc'); None if the script admits no such run"""
     n = len(want_trace)
@@ -147,6 +163,8 @@ def find_bits(sc, want_trace, want_exit, ro=False, max_nodes=20000):
     def accept(ex, st):
         if st.trace != want_trace:
             return False
+        if calls is not None and st.calls != calls:
+            return False     # the decisions at the `call f` sites must be what the child calls really did
         if want_exit == 'ok':
             return ex in ('norm', 'ret')
         return ex == want_exit
@@ -196,6 +214,7 @@ def search(sc, accept, ro=False, max_nodes=200000, loop_bound=2, prune=None):
         except Abort:
             ex = 'abort'
         bits = dec.bits
+        st.calls = dec.calls
         if ex != 'abort' and accept(ex, st):
             return bits, ex, st
         for i in reversed(pending):
